@@ -575,7 +575,11 @@ func c16stopfirst(c *an.Ctx) {
 		return
 	}
 	n := 0
-	for _, fn := range an.WithAnon(outer) {
+	fns := an.WithAnon(outer)
+	if m := returnedFunc(outer); m != nil && m.Parent() == nil {
+		fns = append(fns, an.WithAnon(m)...) // the callback is a method value
+	}
+	for _, fn := range fns {
 		calls := an.CallsTo(fn, cmd)
 		if len(calls) < 2 {
 			continue
